@@ -4,6 +4,7 @@ import (
 	"encoding/base64"
 	"fmt"
 	"go/types"
+	"strconv"
 	"strings"
 )
 
@@ -221,6 +222,29 @@ func init() {
 	m["strconv.Itoa"] = func(ex *Exec, fr *frame, a []Value) Value {
 		n := ex.concreteInt(fr, a[0], "Itoa")
 		return ex.mkStr(fmt.Sprintf("%d", n))
+	}
+	m["strconv.FormatInt"] = func(ex *Exec, fr *frame, a []Value) Value {
+		n := ex.concreteInt(fr, a[0], "FormatInt")
+		base := ex.concreteInt(fr, a[1], "FormatInt base")
+		return ex.mkStr(strconv.FormatInt(int64(n), int(base)))
+	}
+	m["strconv.FormatUint"] = func(ex *Exec, fr *frame, a []Value) Value {
+		n := ex.concreteInt(fr, a[0], "FormatUint")
+		base := ex.concreteInt(fr, a[1], "FormatUint base")
+		return ex.mkStr(strconv.FormatUint(uint64(n), int(base)))
+	}
+	m["strconv.Quote"] = func(ex *Exec, fr *frame, a []Value) Value {
+		s := a[0].(*Str)
+		for _, b := range s.B {
+			if b.Op != OConst {
+				ex.abort("unsupported", "strconv.Quote of symbolic text at "+ex.where(fr))
+			}
+		}
+		raw := make([]byte, len(s.B))
+		for i, b := range s.B {
+			raw[i] = byte(b.Val)
+		}
+		return ex.mkStr(strconv.Quote(string(raw)))
 	}
 	m["sort.Strings"] = func(ex *Exec, fr *frame, a []Value) Value {
 		sl := a[0].(*Slice)
